@@ -1,12 +1,18 @@
 /* C12, BOUNDED symbolic units (mode "bounded", "level": "other"): the REAL aws_xml_parse / s_node_next_sibling /
  * aws_xml_node_traverse / aws_xml_node_as_body / s_advance_to_closing_tag / s_load_node_decl of source/xml_parser.c
- * (+ the real byte_buf.c, array_list.c) run by CBMC on a SYMBOLIC document of a fixed small SHAPE.  Plain assume/assert
- * harness (no contracts are applied): every loop is unwound, unwinding assertions prove the unwinding bounds sufficient.
+ * (+ the real byte_buf.c, array_list.c) run by CBMC on documents of a fixed small SHAPE.  Plain assume/assert harness (no
+ * contracts are applied): every loop is unwound, unwinding assertions prove the unwinding bounds sufficient.
  *
- * The document is generated into a byte array from nondeterministic choices; the generator also records, per element,
- * where its name, attributes and body lie (the "generating tree").  The callbacks compare what the parser reports with
- * that tree at the moment of the report:
- *   - the report arrives as the r_pos[id]-th callback = number of elements the program reaches before it in document
+ * What is CONCRETE (enumerated by loops of the harness, so that the layout of the document and with it the control flow
+ * of the parser stay concrete for symbolic execution - a symbolic layout made the formula explode: 7M variables for the
+ * smallest shape): the element names, the number/form of the attributes, the text lengths, which elements the program
+ * skips.  What is SYMBOLIC (decided by the SAT back end for every value at once): every text byte (any value but '<'),
+ * every attribute name/value byte (any value that is not markup), the preamble content, whether a non-skipped element
+ * is read as body or descended into, the max_depth option.
+ *
+ * The generator records, per element, where its name, attributes and body lie (the "generating tree").  The callback
+ * compares what the parser reports with that tree at the moment of the report:
+ *   - the report arrives as the pos-th callback, pos = number of elements the program reaches before it in document
  *     order (exactly once, document order), and only for elements the program reaches,
  *   - at the right depth, name view == exactly the name bytes in the document (pointer + length),
  *   - attribute count, and every attribute's name/value view == exactly those bytes (quotes stripped),
@@ -15,59 +21,56 @@
  * Shapes (VERIF_XML_SHAPE):
  *   1 "siblings"  <N0 A0>T<N1 A1>T</N1>T<N2 A2>T</N2>T</N0>
  *   2 "nested"    <N0 A0>T<N1 A1>T<N2 A2>T</N2>T</N1>T</N0>
- *   3 "attrs"     <N0>T<N1 k=v ... (9, 10 or 11 attributes)>T</N1>T</N0>
+ *   3 "attrlimit" <N0>T<N1 k=fv ... (9, 10 or 11 attributes)>T</N1>T</N0>
  *   4 "preamble"  P P w <N0 A0>T</N0>      P = nothing | <?p?> | <?p> | <!p> ; w = nothing | one byte that is not '<'
- * Ni in {a, ab, b}; T = 0..MAXT text bytes, any value but '<'; Ai = 0..MAXA attributes " k=v" or " k=\"v\"" with k, v one
- * byte each, any value that is not markup (' ', '=', '<', '>', '/', '"'); p any byte but '>'.
- * Per-element action in {descend, read body, skip}, chosen nondeterministically (leaves may be "descended" too); ROOT_ACTS
- * restricts the action of the root per unit (the formula is much smaller when the root's action is known to symex).
+ *   5 "attrs"     <N0 A A A>T</N0>         0..3 attributes, each quoted or not
+ * Ni in {a, ab, b}; T = 0 or 1 text byte; A = nothing | " k=fv" | " k=\"f\"" (k, f symbolic bytes; an unquoted value ends
+ * in the fixed letter v because the parser branches on the last byte of a start tag: '/' would make it self-closing).
  * Rejection harness: the same generator with a defect switched on - one closing tag left out, or a max_depth option below
  * what the program descends to (11 attributes: shape 3); aws_xml_parse must then return AWS_OP_ERR.
  * Environment stubs: malloc allocator, error slot, no logger; aws_fatal_assert = assert(0).
  * memchr (libc, ASSUMED; CBMC has no model of it): on the document it is answered from "next occurrence" tables that are
- * computed once per document; harness h_memchr_model checks the tables against the reference loop for every document
- * content, offset, length and each of the four bytes the parser searches for ('<', '>', ' ', '='). */
+ * computed once per document from its bytes; harness h_memchr_model checks the tables against the reference loop for
+ * every document content, offset, length and each of the four bytes the parser searches for ('<', '>', ' ', '='). */
 #include "contracts/xml_parser.h" /* only for the ghost names that overlay/xml_parser.loops, byte_buf.loops mention */
 #include <stdlib.h>
 
 #ifndef VERIF_XML_SHAPE
 #    define VERIF_XML_SHAPE 1
 #endif
-#ifndef MAXT
-#    define MAXT 1 /* text bytes per text slot */
-#endif
-#ifndef MAXA
-#    define MAXA 1 /* attributes per element (shapes 1, 2, 4) */
-#endif
-#ifndef ROOT_ACTS
-#    define ROOT_ACTS 0 /* 0: the root's action is any of the three; 1: descend; 2: read body or skip */
-#endif
 #define NEL 3
 #define ATTR_CAP 11
 #if VERIF_XML_SHAPE == 3
-#    define DOCMAX (4 + MAXT + 3 + 11 * 4 + 1 + MAXT + 5 + MAXT + 5)
+#    define DOCMAX (4 + 1 + 3 + 11 * 5 + 1 + 1 + 5 + 1 + 5)
 #    define AMAX 10
 #    define NUSED 2
+#    define MAXDEPTH 1
 #elif VERIF_XML_SHAPE == 4
-#    define DOCMAX (5 + 5 + 1 + (3 + MAXA * 6 + 1 + 5) + MAXT)
-#    define AMAX MAXA
+#    define DOCMAX (5 + 5 + 1 + (3 + 6 + 1 + 5) + 1)
+#    define AMAX 1
 #    define NUSED 1
-#else
-#    define DOCMAX (3 * (3 + MAXA * 6 + 1 + 5) + 5 * MAXT)
-#    define AMAX MAXA
-#    define NUSED 3
-#endif
-#if VERIF_XML_SHAPE == 2
-#    define MAXDEPTH 2
-#elif VERIF_XML_SHAPE == 4
+#    define MAXDEPTH 0
+#elif VERIF_XML_SHAPE == 5
+#    define DOCMAX ((3 + 3 * 6 + 1 + 5) + 1)
+#    define AMAX 3
+#    define NUSED 1
 #    define MAXDEPTH 0
 #else
-#    define MAXDEPTH 1
+#    define DOCMAX (3 * (3 + 6 + 1 + 5) + 5)
+#    define AMAX 1
+#    define NUSED 3
+#    if VERIF_XML_SHAPE == 2
+#        define MAXDEPTH 2
+#    else
+#        define MAXDEPTH 1
+#    endif
 #endif
 
 static uint8_t r_doc[DOCMAX];
 static size_t r_len;
-/* next occurrence tables: r_next[c][i] = smallest j >= i with r_doc[j] == byte c, or DOCMAX when there is none below r_len */
+/* bit ch of r_excl[i]: byte i is a free byte of the generator that was ASSUMED not to be the searched byte ch */
+static uint8_t r_excl[DOCMAX];
+/* next occurrence tables: r_next[ch][i] = smallest j >= i with r_doc[j] == byte ch, or DOCMAX when there is none below r_len */
 enum { CH_LT, CH_GT, CH_SP, CH_EQ, N_CH };
 static const uint8_t CH_BYTE[N_CH] = {'<', '>', ' ', '='};
 static uint8_t r_next[N_CH][DOCMAX + 1];
@@ -120,7 +123,8 @@ static void build_tables(void) {
     for (int ch = 0; ch < N_CH; ++ch) {
         r_next[ch][DOCMAX] = DOCMAX;
         for (size_t i = DOCMAX; i-- > 0;) {
-            r_next[ch][i] = (i < r_len && r_doc[i] == CH_BYTE[ch]) ? (uint8_t)i : r_next[ch][i + 1];
+            bool is_ch = i < r_len && !((r_excl[i] >> ch) & 1) && r_doc[i] == CH_BYTE[ch];
+            r_next[ch][i] = is_ch ? (uint8_t)i : r_next[ch][i + 1];
         }
     }
     r_tables = true;
@@ -133,14 +137,16 @@ uint8_t g_va, g_vb; /* ghosts named by loop contracts of other modules' overlays
 
 enum { ACT_DESCEND, ACT_BODY, ACT_SKIP };
 enum { DEFECT_NONE, DEFECT_NO_CLOSE, DEFECT_DEPTH };
+enum { AK_NONE, AK_PLAIN, AK_QUOTED };
 
 struct el {
-    int nm;                 /* 0 "a", 1 "ab", 2 "b" */
+    int nm;                 /* 0 "a", 1 "ab", 2 "b" (concrete) */
     int depth, parent;
     size_t name_at, name_len;
-    size_t nattr, ak[ATTR_CAP], av[ATTR_CAP];
+    size_t nattr, ak[ATTR_CAP], av[ATTR_CAP], avlen[ATTR_CAP];
     size_t body_at, body_end;
-    int act;
+    bool skip;              /* concrete part of the program */
+    int act;                /* skip, or symbolic: body / descend */
     bool reached;           /* every ancestor is descended into */
     int pos;                /* number of reached elements before this one in document order */
 };
@@ -151,62 +157,67 @@ static bool r_check;        /* acceptance harnesses: compare each report with th
 static int r_seen;          /* number of callbacks so far */
 static int r_cnt[4];        /* number of callbacks per depth */
 static bool r_too_deep;
+static bool r_root_done;
 
 static void put(uint8_t c) {
     __CPROVER_assert(r_len < DOCMAX, "generator: document fits its array");
     r_doc[r_len] = c;
+    r_excl[r_len] = 0;
     r_len++;
+}
+#define EX(ch) (1u << (ch))
+static void put_free(uint8_t c, uint8_t excl) {
+    __CPROVER_assert(!((excl & EX(CH_LT)) && c == '<') && !((excl & EX(CH_GT)) && c == '>') && !((excl & EX(CH_SP)) && c == ' ') &&
+                         !((excl & EX(CH_EQ)) && c == '='),
+                     "memchr tables: a free byte is none of the searched bytes it was declared not to be");
+    put(c);
+    r_excl[r_len - 1] = excl;
 }
 static void put_name(int nm) {
     if (nm != 2) put('a');
     if (nm != 0) put('b');
 }
-static uint8_t attr_byte(void) {
+static void put_attr_byte(void) {
     uint8_t c = nondet_u8();
     __CPROVER_assume(c != ' ' && c != '=' && c != '<' && c != '>' && c != '/' && c != '"');
-    return c;
+    put_free(c, EX(CH_LT) | EX(CH_GT) | EX(CH_SP) | EX(CH_EQ));
 }
-static void put_text(void) {
-    size_t n = nondet_size_t();
-    __CPROVER_assume(n <= MAXT);
-    for (size_t i = 0; i < MAXT; ++i) {
-        if (i < n) {
-            uint8_t c = nondet_u8();
-            __CPROVER_assume(c != '<');
-            put(c);
-        }
+static void put_text(int n) {
+    for (int i = 0; i < n; ++i) {
+        uint8_t c = nondet_u8();
+        __CPROVER_assume(c != '<');
+        put_free(c, EX(CH_LT));
     }
 }
-static void put_open(int i, int depth, int parent, size_t min_attr, size_t max_attr, bool quotes) {
+/* kinds[k]: AK_PLAIN " k=fv", AK_QUOTED " k=\"f\"" */
+static void put_open(int i, int nm, int depth, int parent, bool skip, int nattr, const int *kinds) {
     struct el *e = &r_el[i];
-    e->nm = nondet_int();
-    __CPROVER_assume(e->nm >= 0 && e->nm <= 2);
+    e->nm = nm;
     e->depth = depth;
     e->parent = parent;
-    e->act = nondet_int();
-    __CPROVER_assume(e->act >= ACT_DESCEND && e->act <= ACT_SKIP);
-#if ROOT_ACTS == 1
-    if (i == 0) e->act = ACT_DESCEND;
-#elif ROOT_ACTS == 2
-    if (i == 0) e->act = nondet_bool() ? ACT_BODY : ACT_SKIP;
-#endif
+    e->skip = skip;
+    e->act = skip ? ACT_SKIP : (nondet_bool() ? ACT_BODY : ACT_DESCEND);
     put('<');
     e->name_at = r_len;
-    put_name(e->nm);
-    e->name_len = e->nm == 1 ? 2 : 1;
-    e->nattr = nondet_size_t();
-    __CPROVER_assume(e->nattr >= min_attr && e->nattr <= max_attr);
-    for (size_t k = 0; k < max_attr; ++k) {
-        if (k < e->nattr) {
-            bool quoted = quotes && nondet_bool();
-            put(' ');
-            e->ak[k] = r_len;
-            put(attr_byte());
-            put('=');
-            if (quoted) put('"');
+    put_name(nm);
+    e->name_len = nm == 1 ? 2 : 1;
+    e->nattr = (size_t)nattr;
+    for (int k = 0; k < nattr; ++k) {
+        put(' ');
+        e->ak[k] = r_len;
+        put_attr_byte();
+        put('=');
+        if (kinds[k] == AK_QUOTED) {
+            put('"');
             e->av[k] = r_len;
-            put(attr_byte());
-            if (quoted) put('"');
+            e->avlen[k] = 1;
+            put_attr_byte();
+            put('"');
+        } else {
+            e->av[k] = r_len;
+            e->avlen[k] = 2;
+            put_attr_byte();
+            put('v');
         }
     }
     put('>');
@@ -220,50 +231,18 @@ static void put_close(int i) {
     put_name(e->nm);
     put('>');
 }
-static void put_preamble_statement(void) {
-    if (nondet_bool()) {
-        uint8_t p = nondet_u8();
-        __CPROVER_assume(p != '>');
-        put('<');
-        put(nondet_bool() ? '?' : '!');
-        put(p);
-        if (nondet_bool()) put('?');
-        put('>');
-    }
+/* kind 0: nothing, 1: <?p?>, 2: <?p>, 3: <!p> */
+static void put_preamble_statement(int kind) {
+    if (kind == 0) return;
+    uint8_t p = nondet_u8();
+    __CPROVER_assume(p != '>');
+    put('<');
+    put(kind == 3 ? '!' : '?');
+    put_free(p, EX(CH_GT));
+    if (kind == 1) put('?');
+    put('>');
 }
-
-static void generate(size_t min_attr1, size_t max_attr1) {
-    r_len = 0;
-    r_tables = false;
-#if VERIF_XML_SHAPE == 1
-    put_open(0, 0, -1, 0, MAXA, true); put_text();
-    put_open(1, 1, 0, 0, MAXA, true); put_text(); put_close(1); put_text();
-    put_open(2, 1, 0, 0, MAXA, true); put_text(); put_close(2); put_text();
-    put_close(0);
-    (void)min_attr1; (void)max_attr1;
-#elif VERIF_XML_SHAPE == 2
-    put_open(0, 0, -1, 0, MAXA, true); put_text();
-    put_open(1, 1, 0, 0, MAXA, true); put_text();
-    put_open(2, 2, 1, 0, MAXA, true); put_text(); put_close(2); put_text();
-    put_close(1); put_text();
-    put_close(0);
-    (void)min_attr1; (void)max_attr1;
-#elif VERIF_XML_SHAPE == 3
-    put_open(0, 0, -1, 0, 0, false); put_text();
-    put_open(1, 1, 0, min_attr1, max_attr1, false); put_text(); put_close(1); put_text();
-    put_close(0);
-#else
-    put_preamble_statement();
-    put_preamble_statement();
-    if (nondet_bool()) {
-        uint8_t w = nondet_u8();
-        __CPROVER_assume(w != '<');
-        put(w);
-    }
-    put_open(0, 0, -1, 0, MAXA, true); put_text();
-    put_close(0);
-    (void)min_attr1; (void)max_attr1;
-#endif
+static void finish_generation(void) {
     build_tables();
     /* which elements the program reaches, and as the how-manieth callback */
     r_nreach = 0;
@@ -276,7 +255,6 @@ static void generate(size_t min_attr1, size_t max_attr1) {
 }
 
 static int on_node(struct aws_xml_node *node, void *ud);
-static bool r_root_done;
 
 /* the element a callback at this depth is about: by depth and order of arrival at that depth */
 static int visit(struct aws_xml_node *node, int depth) {
@@ -307,11 +285,11 @@ static int visit(struct aws_xml_node *node, int depth) {
             if (a < na && a < e->nattr) {
                 struct aws_xml_attribute at = aws_xml_node_get_attribute(node, a);
                 __CPROVER_assert(at.name.ptr == r_doc + e->ak[a] && at.name.len == 1, "attribute name view is exactly the name in the document");
-                __CPROVER_assert(at.value.ptr == r_doc + e->av[a] && at.value.len == 1, "attribute value view is exactly the value in the document (quotes stripped)");
+                __CPROVER_assert(at.value.ptr == r_doc + e->av[a] && at.value.len == e->avlen[a], "attribute value view is exactly the value in the document (quotes stripped)");
             }
         }
     }
-    if (e->act == ACT_BODY && !(ROOT_ACTS == 1 && depth == 0)) {
+    if (e->act == ACT_BODY) {
         struct aws_byte_cursor body;
         int rc = aws_xml_node_as_body(node, &body);
         if (r_check) {
@@ -321,7 +299,7 @@ static int visit(struct aws_xml_node *node, int depth) {
         }
         return rc;
     }
-    if (e->act == ACT_DESCEND && !(ROOT_ACTS == 2 && depth == 0)) {
+    if (e->act == ACT_DESCEND) {
         int rc = aws_xml_node_traverse(node, on_node, (void *)(size_t)(depth + 1));
         if (r_check) __CPROVER_assert(rc == AWS_OP_SUCCESS, "traversal of a well-formed element succeeds");
         return rc;
@@ -354,96 +332,246 @@ static int run_parse(size_t max_depth) {
     o.doc = aws_byte_cursor_from_array(r_doc, r_len);
     o.max_depth = max_depth;
     o.on_root_encountered = on_node;
-    r_root_done = false;
     o.user_data = NULL;
+    r_root_done = false;
     r_seen = 0;
     r_cnt[0] = r_cnt[1] = r_cnt[2] = r_cnt[3] = 0;
     r_too_deep = false;
+    g_last_error = 0;
+    g_raise_count = 0;
     return aws_xml_parse(&s_alloc, &o);
 }
 
-/* ---------------------------------------------------------------- acceptance: shapes 1, 2, 4 */
-void h_accept(void) {
-    GHOST_RESET_COMMON();
-    r_defect = DEFECT_NONE;
-    r_check = true;
-    generate(0, 0);
+/* ---------------------------------------------------------------- enumeration of the concrete part (shapes 1, 2) */
+#ifndef NM0_LO
+#    define NM0_LO 0
+#    define NM0_HI 2
+#endif
+#ifndef ATTR_PATS /* attribute form per element, base 3: e0 + 3 * e1 + 9 * e2 (AK_NONE / AK_PLAIN / AK_QUOTED) */
+#    define ATTR_PATS {0, 1 + 3 * 2 + 9 * 1, 2 + 3 * 0 + 9 * 2, 0 + 3 * 1 + 9 * 0}
+#endif
+#ifndef TEXT_PATS /* one text byte in slot s when bit s is set (5 slots) */
+#    define TEXT_PATS {0x00, 0x1f, 0x0a, 0x15}
+#endif
+static const int ATTR_PAT[] = ATTR_PATS;
+static const int TEXT_PAT[] = TEXT_PATS;
+#define N_ATTR_PAT ((int)(sizeof(ATTR_PAT) / sizeof(ATTR_PAT[0])))
+#define N_TEXT_PAT ((int)(sizeof(TEXT_PAT) / sizeof(TEXT_PAT[0])))
+
+#if VERIF_XML_SHAPE == 1 || VERIF_XML_SHAPE == 2
+static void generate_tree(const int *nm, int apat, int tpat, int skipmask) {
+    int kind[3][1] = {{apat % 3}, {apat / 3 % 3}, {apat / 9 % 3}};
+#    define OPEN(i, depth, parent) put_open(i, nm[i], depth, parent, (skipmask >> (i)) & 1, kind[i][0] != AK_NONE, kind[i])
+#    define TEXT(s) put_text((tpat >> (s)) & 1)
+    r_len = 0;
+    r_tables = false;
+#    if VERIF_XML_SHAPE == 1
+    OPEN(0, 0, -1); TEXT(0);
+    OPEN(1, 1, 0); TEXT(1); put_close(1); TEXT(2);
+    OPEN(2, 1, 0); TEXT(3); put_close(2); TEXT(4);
+    put_close(0);
+#    else
+    OPEN(0, 0, -1); TEXT(0);
+    OPEN(1, 1, 0); TEXT(1);
+    OPEN(2, 2, 1); TEXT(2); put_close(2); TEXT(3);
+    put_close(1); TEXT(4);
+    put_close(0);
+#    endif
+    finish_generation();
+}
+/* a skip mask is redundant when it skips an element below a skipped one (that element is never looked at) */
+static bool redundant(int skipmask) {
+#    if VERIF_XML_SHAPE == 1
+    return (skipmask & 1) && (skipmask & 6);
+#    else
+    return ((skipmask & 1) && (skipmask & 6)) || ((skipmask & 2) && (skipmask & 4));
+#    endif
+}
+
+static void accept_case(void) {
     size_t max_depth = nondet_size_t();
     __CPROVER_assume(max_depth == 0 || max_depth > NEL); /* default limit (20) or any limit the document stays below */
     int rc = run_parse(max_depth);
     __CPROVER_assert(rc == AWS_OP_SUCCESS, "well-formed document within the limits is accepted");
     __CPROVER_assert(r_seen == r_nreach, "every element the program reaches is reported (exactly once: count)");
     /* reachability of the interesting programs (after the parse: the path through the parser is feasible) */
-#if VERIF_XML_SHAPE == 4
-    if (r_doc[0] == '<' && r_doc[1] == '?' && r_el[0].name_at >= 9) CANARY("two preamble statements skipped");
-    if (r_el[0].name_at == 1) CANARY("no preamble");
-#else
     if (r_el[0].act == ACT_DESCEND) CANARY("descend into the root");
     if (r_el[0].act == ACT_BODY && r_el[0].nm == 0 && r_el[1].nm == 1) CANARY("body read of <a> whose child is <ab> (name extends its own)");
     if (r_el[0].act == ACT_SKIP && r_el[0].nm == 0 && r_el[1].nm == 1) CANARY("skip of <a> whose child is <ab>");
     if (r_el[0].act == ACT_BODY && r_el[0].nm == r_el[1].nm && r_el[1].nattr > 0) CANARY("body read of an element whose child has the same name and attributes");
 #    if VERIF_XML_SHAPE == 1
-    if (r_el[0].act == ACT_DESCEND && r_el[1].act == ACT_SKIP && r_el[1].nm == 0 && r_el[2].nm == 1 && r_el[2].act == ACT_BODY) CANARY("first child <a> skipped, second child <ab> read");
+    if (r_el[0].act == ACT_DESCEND && r_el[1].act == ACT_SKIP && r_el[2].act == ACT_BODY) CANARY("first child skipped, second child read");
 #    else
     if (r_el[0].act == ACT_DESCEND && r_el[1].act == ACT_DESCEND && r_el[2].act == ACT_DESCEND) CANARY("descended to the innermost element");
     if (r_el[0].act == ACT_DESCEND && r_el[1].act == ACT_BODY && r_el[1].nm == 0 && r_el[2].nm == 1) CANARY("body read of a child <a> whose child is <ab>");
     if (r_el[0].act == ACT_DESCEND && r_el[1].act == ACT_SKIP && r_el[1].nm == 0 && r_el[2].nm == 1) CANARY("skip of a child <a> whose child is <ab>");
 #    endif
-#endif
+}
+
+void h_accept(void) {
+    GHOST_RESET_COMMON();
+    r_defect = DEFECT_NONE;
+    r_check = true;
+    int nm[3];
+    for (nm[0] = NM0_LO; nm[0] <= NM0_HI; ++nm[0])
+        for (nm[1] = 0; nm[1] < 3; ++nm[1])
+            for (nm[2] = 0; nm[2] < 3; ++nm[2])
+                for (int ap = 0; ap < N_ATTR_PAT; ++ap)
+                    for (int tp = 0; tp < N_TEXT_PAT; ++tp)
+                        for (int skipmask = 0; skipmask < 8; ++skipmask) {
+                            if (redundant(skipmask)) continue;
+                            generate_tree(nm, ATTR_PAT[ap], TEXT_PAT[tp], skipmask);
+                            accept_case();
+                        }
 }
 
 /* ---------------------------------------------------------------- rejection: a closing tag left out / depth limit exceeded */
-void h_reject(void) {
-    GHOST_RESET_COMMON();
-    r_check = false;
-    r_defect = nondet_bool() ? DEFECT_NO_CLOSE : DEFECT_DEPTH;
-    r_defect_el = nondet_int();
-    __CPROVER_assume(r_defect_el >= 0 && r_defect_el < NUSED);
-    generate(0, 0);
-    /* the defect must lie where the program looks: the element without closing tag is reached; resp. an element at depth
-     * d is reached and descended into while max_depth <= d + 1 */
-    bool looked_at = false;
-    size_t max_depth = 0;
-    if (r_defect == DEFECT_NO_CLOSE) {
-        looked_at = r_el[r_defect_el].reached;
-    } else {
-        max_depth = nondet_size_t();
-        __CPROVER_assume(max_depth >= 1 && max_depth <= NEL);
-        for (int i = 0; i < NUSED; ++i)
-            if (r_el[i].reached && r_el[i].act == ACT_DESCEND && (size_t)r_el[i].depth + 1 >= max_depth) looked_at = true;
-    }
-    __CPROVER_assume(looked_at);
+static void reject_case(size_t max_depth) {
     int rc = run_parse(max_depth);
     __CPROVER_assert(rc == AWS_OP_ERR, "document without a closing tag / beyond the depth limit is rejected with an error");
     __CPROVER_assert(g_raise_count > 0 && g_last_error != 0, "an error code is registered");
-    if (r_defect == DEFECT_NO_CLOSE && r_defect_el == 0) CANARY("root without closing tag rejected");
-    if (r_defect == DEFECT_NO_CLOSE && r_defect_el == NUSED - 1 && r_el[NUSED - 1].act == ACT_DESCEND) CANARY("last element without closing tag, descended into, rejected");
-    if (r_defect == DEFECT_DEPTH && max_depth == NEL) CANARY("depth limit exceeded rejected");
 }
+void h_reject(void) {
+    GHOST_RESET_COMMON();
+    r_check = false;
+    int nm[3];
+    for (nm[0] = NM0_LO; nm[0] <= NM0_HI; ++nm[0])
+        for (nm[1] = 0; nm[1] < 3; ++nm[1])
+            for (nm[2] = 0; nm[2] < 3; ++nm[2])
+                for (int ap = 0; ap < N_ATTR_PAT; ++ap)
+                    for (int tp = 0; tp < N_TEXT_PAT; ++tp)
+                        for (int skipmask = 0; skipmask < 8; ++skipmask) {
+                            if (redundant(skipmask)) continue;
+                            /* (a) the closing tag of element d is missing; the program reaches element d */
+                            for (int d = 0; d < NUSED; ++d) {
+                                r_defect = DEFECT_NO_CLOSE;
+                                r_defect_el = d;
+                                generate_tree(nm, ATTR_PAT[ap], TEXT_PAT[tp], skipmask);
+                                if (r_el[d].reached) { /* symbolic: depends on body / descend of the ancestors */
+                                    reject_case(0);
+                                    if (d == 0) CANARY("root without closing tag rejected");
+                                    if (d == NUSED - 1 && r_el[d].act == ACT_DESCEND) CANARY("last element without closing tag, descended into, rejected");
+                                }
+                            }
+                            /* (b) max_depth = m: some reached element at depth >= m - 1 is descended into */
+                            for (size_t m = 1; m <= NEL; ++m) {
+                                r_defect = DEFECT_DEPTH;
+                                generate_tree(nm, ATTR_PAT[ap], TEXT_PAT[tp], skipmask);
+                                bool looked_at = false;
+                                for (int i = 0; i < NUSED; ++i)
+                                    if (r_el[i].reached && r_el[i].act == ACT_DESCEND && (size_t)r_el[i].depth + 1 >= m) looked_at = true;
+                                if (looked_at) {
+                                    reject_case(m);
+                                    if (m == MAXDEPTH + 1) CANARY("depth limit exceeded at the innermost element rejected");
+                                }
+                            }
+                        }
+}
+#endif
 
 /* ---------------------------------------------------------------- attribute limit: 9, 10 (accepted, all reported), 11 (rejected) */
+#if VERIF_XML_SHAPE == 3
 void h_attr_limit(void) {
     GHOST_RESET_COMMON();
     r_defect = DEFECT_NONE;
-    generate(9, 11);
-    r_check = r_el[1].nattr <= 10; /* 11: nothing is compared, the result decides */
-    int rc = run_parse(0);
-    if (r_el[1].nattr <= 10) {
-        __CPROVER_assert(rc == AWS_OP_SUCCESS, "element with 9 or 10 attributes is accepted");
-        __CPROVER_assert(r_seen == 2, "both elements reported");
-        if (r_el[1].nattr == 10) CANARY("10 attributes accepted and reported"); else CANARY("9 attributes accepted and reported");
-    } else {
-        __CPROVER_assert(rc == AWS_OP_ERR, "element with 11 attributes is rejected with an error");
-        __CPROVER_assert(r_seen == 1, "the element with 11 attributes is not reported at all");
-        CANARY("11 attributes rejected");
-    }
+    int kinds[ATTR_CAP] = {AK_PLAIN, AK_PLAIN, AK_PLAIN, AK_PLAIN, AK_PLAIN, AK_PLAIN, AK_PLAIN, AK_PLAIN, AK_PLAIN, AK_PLAIN, AK_PLAIN};
+    for (int nm1 = 0; nm1 < 2; ++nm1)
+        for (int n = 9; n <= 11; ++n)
+            for (int skip1 = 0; skip1 < 2; ++skip1) {
+                r_len = 0;
+                r_tables = false;
+                put_open(0, 0, 0, -1, false, 0, kinds);
+                r_el[0].act = ACT_DESCEND;
+                put_text(1);
+                put_open(1, nm1, 1, 0, skip1, n, kinds);
+                put_text(1);
+                put_close(1);
+                put_close(0);
+                finish_generation();
+                r_check = n <= 10; /* 11: nothing is compared, the result decides */
+                int rc = run_parse(0);
+                if (n <= 10) {
+                    __CPROVER_assert(rc == AWS_OP_SUCCESS, "element with 9 or 10 attributes is accepted");
+                    __CPROVER_assert(r_seen == 2, "both elements reported");
+                    if (n == 10) CANARY("10 attributes accepted and reported"); else CANARY("9 attributes accepted and reported");
+                } else {
+                    __CPROVER_assert(rc == AWS_OP_ERR, "element with 11 attributes is rejected with an error");
+                    __CPROVER_assert(g_raise_count > 0 && g_last_error != 0, "an error code is registered");
+                    __CPROVER_assert(r_seen == 1, "the element with 11 attributes is not reported at all");
+                    CANARY("11 attributes rejected");
+                }
+            }
 }
+#endif
+
+/* ---------------------------------------------------------------- preamble statements and leading text */
+#if VERIF_XML_SHAPE == 4
+void h_preamble(void) {
+    GHOST_RESET_COMMON();
+    r_defect = DEFECT_NONE;
+    r_check = true;
+    int kinds[1] = {AK_QUOTED};
+    for (int p1 = 0; p1 < 4; ++p1)
+        for (int p2 = 0; p2 < 4; ++p2) {
+            if (p1 == 0 && p2 != 0) continue; /* same documents as (p2, nothing) */
+            for (int lead = 0; lead < 2; ++lead)
+                for (int nm0 = 0; nm0 < 3; ++nm0)
+                    for (int skip0 = 0; skip0 < 2; ++skip0) {
+                        r_len = 0;
+                        r_tables = false;
+                        put_preamble_statement(p1);
+                        put_preamble_statement(p2);
+                        put_text(lead);
+                        put_open(0, nm0, 0, -1, skip0, (p1 + nm0) & 1, kinds);
+                        put_text(1);
+                        put_close(0);
+                        finish_generation();
+                        int rc = run_parse(0);
+                        __CPROVER_assert(rc == AWS_OP_SUCCESS, "document with preamble statements is accepted");
+                        __CPROVER_assert(r_seen == 1, "the root element is reported exactly once");
+                        if (p1 && p2) CANARY("two preamble statements skipped");
+                        if (!p1 && !lead) CANARY("no preamble");
+                    }
+        }
+}
+#endif
+
+/* ---------------------------------------------------------------- attribute forms on one element */
+#if VERIF_XML_SHAPE == 5
+void h_attrs(void) {
+    GHOST_RESET_COMMON();
+    r_defect = DEFECT_NONE;
+    r_check = true;
+    for (int n = 0; n <= 3; ++n)
+        for (int q = 0; q < (1 << n); ++q)
+            for (int nm0 = 0; nm0 < 3; ++nm0)
+                for (int skip0 = 0; skip0 < 2; ++skip0)
+                    for (int t = 0; t < 2; ++t) {
+                        int kinds[3] = {(q & 1) ? AK_QUOTED : AK_PLAIN, (q & 2) ? AK_QUOTED : AK_PLAIN, (q & 4) ? AK_QUOTED : AK_PLAIN};
+                        r_len = 0;
+                        r_tables = false;
+                        put_open(0, nm0, 0, -1, skip0, n, kinds);
+                        put_text(t);
+                        put_close(0);
+                        finish_generation();
+                        int rc = run_parse(0);
+                        __CPROVER_assert(rc == AWS_OP_SUCCESS, "element with 0..3 attributes is accepted");
+                        __CPROVER_assert(r_seen == 1, "the element is reported exactly once");
+                        if (n == 3 && q == 5) CANARY("three attributes, quoted / plain / quoted");
+                        if (n == 0) CANARY("no attribute");
+                    }
+}
+#endif
 
 /* ---------------------------------------------------------------- the memchr tables against the reference loop */
 void h_memchr_model(void) {
     r_len = nondet_size_t();
     __CPROVER_assume(r_len <= DOCMAX);
-    for (size_t i = 0; i < DOCMAX; ++i) r_doc[i] = nondet_u8();
+    for (size_t i = 0; i < DOCMAX; ++i) {
+        r_doc[i] = nondet_u8();
+        r_excl[i] = nondet_u8(); /* any declaration of excluded bytes that is true of the content */
+        for (int ch = 0; ch < N_CH; ++ch) __CPROVER_assume(!((r_excl[i] >> ch) & 1) || r_doc[i] != CH_BYTE[ch]);
+    }
     build_tables();
     size_t off = nondet_size_t(), n = nondet_size_t();
     __CPROVER_assume(off <= r_len && n <= r_len - off);
